@@ -1,4 +1,6 @@
 import BqVerif.Proofs.Worker
+import BqVerif.Proofs.Cleanup
+import BqVerif.Proofs.WorkersInv
 import BqVerif.Model.RuntimeWitness
 /-!
 # C12 — cancelling removes the work everywhere and disturbs nothing else
@@ -61,12 +63,10 @@ theorem C12_cancel_drops (r : Run) (m : Nat) (b : Box) (hf : Fresh r.w)
 
 example : Gone ({ id := 0, counter := 1 } : Worker) 0 := ⟨by decide, rfl⟩
 
-/-- **Clean-up, the part that holds** (`_handle_cancel`): right after a worker processed
+/-- **Clean-up at the moment of the CANCEL** (`_handle_cancel`): right after a worker processed
     `CANCEL a` it holds no started task and no delayed task that is `a` or a descendant of
-    `a`, and none of the mailboxes those tasks owned.  What is missing for the full clean-up
-    claim of C12: tasks of the lineage that *arrive later* (see `C12_leak_witness`) and
-    mailboxes skipped by the completion clean-up (see `C12_orphan_witness`). -/
-theorem C12_cleanup_partial (w : Worker) (a : Addr) :
+    `a`, and none of the mailboxes those tasks owned. -/
+theorem C12_cleanup_on_cancel (w : Worker) (a : Addr) :
     (∀ t ∈ (w.handleCancel a).tasks, t.descOf a = false)
     ∧ (∀ t ∈ (w.handleCancel a).delayed, t.descOf a = false)
     ∧ (∀ t ∈ w.tasks, t.descOf a = true → ∀ m ∈ t.owned, boxGet (w.handleCancel a).boxes m = none) := by
@@ -87,24 +87,76 @@ theorem C12_cleanup_partial (w : Worker) (a : Addr) :
       exact ⟨t.owned, ⟨t, ⟨ht, hd⟩, rfl⟩, hm⟩
     simp [this] at hp
 
-/-- Full clean-up at quiescence is **false of the code**: a child whose SUBMIT_BATCH reaches
-    its worker after the broadcast CANCEL of its ancestor is put into `_tasks` and never
-    removed (`_get_next_ready_task` `continue`s). The system is idle, the compilation was
-    cancelled, the worker still holds the task `[0,0,0]`. -/
-theorem C12_leak_witness :
+/-- **Clean-up at quiescence, worker level** (holds since dfc4d06).  Start from a worker with
+    empty tables and let ANY messages arrive in ANY order, interleaved with loop iterations.
+    Whenever the worker is idle (it reported WAITING and its ready queue is empty) it holds no
+    delayed task, and every task left in its table either has no cancelled ancestor, or is a
+    task that was delivered after the CANCEL of its *own* address.  The second alternative is
+    what separates this from the full `C12_cleanup_at_quiescence`: the first `continue` of
+    `_get_next_ready_task` (`addr in _cancelled_task_ids`) still does not pop the task, so
+    excluding it needs the network fact that SUBMIT and CANCEL of one address travel the same
+    FIFO links in this order - a path-ordering invariant of `Net` that is not proved. -/
+theorem C12_cleanup_at_quiescence_partial (tbl : Table) (w : Worker) (ops : List WOp)
+    (h0 : w.tasks = []) (h1 : w.delayed = [])
+    (hb : (ops.foldl (Worker.applyOp tbl) w).blocked = true)
+    (hr : (ops.foldl (Worker.applyOp tbl) w).ready = []) :
+    (ops.foldl (Worker.applyOp tbl) w).delayed = [] ∧
+    ∀ t ∈ (ops.foldl (Worker.applyOp tbl) w).tasks,
+      t.addr ∈ (ops.foldl (Worker.applyOp tbl) w).cancelled ∨
+      ∀ c ∈ t.crumbs, c ∉ (ops.foldl (Worker.applyOp tbl) w).cancelled := by
+  refine cleanup_worker tbl w ops ⟨?_, ?_, fun _ _ => h1⟩ hb hr
+  · rw [h0]; exact List.nodup_nil
+  · intro t ht
+    rw [h0] at ht
+    cases ht
+
+/-- **Clean-up at quiescence on the flat network** (all schedules).  In every quiescent state
+    reachable by the flat network, every live worker holds no delayed task, and every task left in
+    its table has no cancelled ancestor - or is a task delivered after the CANCEL of its own
+    address (excluded in the real system only by the path-ordering argument, see the design
+    note).  Lifts `C12_cleanup_at_quiescence_partial` through `workers_inv_exec`: the clean-up
+    invariant `CInv` needs no assumption on the messages, so it holds for every worker of every
+    reachable state. -/
+theorem C12_G_cleanup_at_quiescence_partial (tbl : Table) (attached : Bool) (nw nc : Nat) (trs : List Tr)
+    (hwf : ∀ t ∈ trs, t.wf) (hq : ((Net.initFlat tbl attached nw nc).exec trs).quiescent = true)
+    (w : Worker) (hw : w ∈ ((Net.initFlat tbl attached nw nc).exec trs).workers)
+    (hal : w.alive = true) (hmd : w.mainDead = false) :
+    w.delayed = [] ∧ ∀ t ∈ w.tasks, t.addr ∈ w.cancelled ∨ ∀ c ∈ t.crumbs, c ∉ w.cancelled := by
+  have hc := cinv_exec tbl attached nw nc trs hwf w hw
+  simp only [Net.quiescent, Bool.and_eq_true, List.all_eq_true] at hq
+  have hidle := hq.2 w hw
+  simp only [hal, hmd, Bool.not_true, Bool.false_or, Bool.and_eq_true, List.isEmpty_iff] at hidle
+  refine ⟨hc.idle hidle.1 hidle.2, ?_⟩
+  intro t ht
+  by_cases ha : t.addr ∈ w.cancelled
+  · exact Or.inl ha
+  · right
+    intro c hc1 hc2
+    have := hc.pending t ht ha ⟨c, hc1, hc2⟩
+    rw [hidle.2] at this; cases this
+
+/-- **Completion-time clean-up** (holds since 6ca9fa1): when a task returns and
+    `_process_task_completion` does not raise, every mailbox the task still owned - those it
+    never awaited - is dropped, and (ids are never reused) stays dropped. -/
+theorem C12_completion_clears_mailboxes (r : Run) (v : Val) (hf : Fresh r.w)
+    (hg : (taskGet r.w.tasks r.t.addr).isSome) (h : (processCompletion r v).2 = false) :
+    ∀ m ∈ r.t.owned, Gone (processCompletion r v).1.w m :=
+  processCompletion_clears r v hf hg h
+
+/-- regression (formerly `C12_leak_witness`, fixed by dfc4d06): the run in which the child's
+    SUBMIT_BATCH reaches the worker after the CANCEL of its ancestor now ends with an empty task
+    table -/
+example :
     let n := (Net.initFlat leakTable false 1 1).exec leakRun
-    n.quiescent = true
-    ∧ n.workers.map (fun w => (w.tasks.map (·.tag), w.cancelled)) = [([[0, 0, 0]], [⟨-1, 0, 0⟩])]
-    ∧ n.server.boxes = [] := by
+    n.quiescent = true ∧ n.workers.map (fun w => (w.tasks.length, w.delayed.length, w.boxes.length)) = [(0, 0, 0)] := by
   decide +kernel
 
-/-- The completion-time clean-up **skips every second open future** (it iterates
-    `owned_mailboxes` while `Worker.cancel` removes from it): the second child is not
-    cancelled, runs, and its mailbox with its result stays on the worker for ever. -/
-theorem C12_orphan_witness :
-    let n := (Net.initFlat orphanTable false 1 1).exec orphanRun
-    n.quiescent = true
-    ∧ n.workers.map (fun w => (w.tasks.length, w.boxes.map (fun p => (p.1, p.2.num)))) = [(0, [(1, 1)])] := by
+/-- regression (formerly `C12_orphan_witness`, fixed by 6ca9fa1): a root that returns with two
+    open futures cancels both; no mailbox is left -/
+example :
+    let n := (Net.initFlat orphanTable false 1 1).exec (orphanRun ++ [.deliver (.wrk 0) .server [] [] false,
+      .deliver .server (.wrk 0) [] [] false, .step 0, .deliver (.wrk 0) .server [] [] false])
+    n.workers.map (fun w => (w.tasks.length, w.boxes.length)) = [(0, 0)] := by
   decide +kernel
 
 end BqVerif.Runtime
